@@ -1,7 +1,7 @@
 From Coq Require Import List NArith Bool Arith Permutation Lia.
 Import ListNotations.
 Require Import MV.Common.Interleave MV.C05.Model MV.C05.Spec MV.C05.Exec.
-Require Import MV.C05.ProofsSeq MV.C05.ProofsInv MV.C05.ProofsCor MV.C05.ProofsUniq MV.C05.ProofsCons MV.C05.ProofsProg MV.C05.ProofsSnap MV.C05.ProofsEmpty MV.C05.ProofsOrder MV.C05.ProofsSpec MV.C05.ProofsTrace1 MV.C05.ProofsTrace2 MV.C05.ProofsTrace3 MV.C05.ProofsTrace4 MV.C05.ProofsTrace5 MV.C05.ProofsTrace6 MV.C05.ProofsTrace7 MV.C05.ProofsTrace8 MV.C05.ProofsTrace9 MV.C05.ProofsTrace10.
+Require Import MV.C05.ProofsSeq MV.C05.ProofsInv MV.C05.ProofsCor MV.C05.ProofsUniq MV.C05.ProofsCons MV.C05.ProofsProg MV.C05.ProofsSnap MV.C05.ProofsEmpty MV.C05.ProofsOrder MV.C05.ProofsSpec MV.C05.ProofsTrace1 MV.C05.ProofsTrace2 MV.C05.ProofsTrace3 MV.C05.ProofsTrace4 MV.C05.ProofsTrace5 MV.C05.ProofsTrace6 MV.C05.ProofsTrace7 MV.C05.ProofsTrace8 MV.C05.ProofsTrace9 MV.C05.ProofsTrace10 MV.C05.ProofsTrace11 MV.C05.ProofsTrace12.
 Local Open Scope nat_scope.
 Require Import MV.C05.Properties.
 
@@ -252,6 +252,27 @@ Check (C05_spec_is_empty_true_completeness_on_model_no_clear : forall c : case,
   let rc := rcalls tr 0 rss in
   forallb (fun r => if (rkind r =? 2)%N then accounts tbl (filter is_clear rc) (rstart r) (handed r) else true) rc = true).
 Print Assumptions C05_spec_is_empty_true_completeness_on_model_no_clear.
+Check (C05_spec_is_empty_false_needs_publication_on_model : forall c : case,
+  let '(tr, rss, _, _, _) := run_case c in
+  let tbl := pinfos tr 0 (progs_of c) in
+  let rc := rcalls tr 0 rss in
+  forallb (fun r => if (rkind r =? 3)%N then existsb (fun i => olt (ppub i) (rend r)) tbl else true) rc = true).
+Print Assumptions C05_spec_is_empty_false_needs_publication_on_model.
+Check (C05_spec_is_empty_completeness_on_model_no_clear : forall c : case,
+  (forall p, In p (progs_of c) -> ~ In CClear p) ->
+  let '(tr, rss, _, _, _) := run_case c in
+  let tbl := pinfos tr 0 (progs_of c) in
+  let rc := rcalls tr 0 rss in
+  forallb (fun r => if (rkind r =? 2)%N then accounts tbl (filter is_clear rc) (rstart r) (handed r)
+                    else if (rkind r =? 3)%N then existsb (fun i => olt (ppub i) (rend r)) tbl else true) rc = true).
+Print Assumptions C05_spec_is_empty_completeness_on_model_no_clear.
+Check (C05_no_clear_not_late_claim : forall c : case,
+  (forall p, In p (progs_of c) -> ~ In CClear p) -> known_class c = None).
+Print Assumptions C05_no_clear_not_late_claim.
+Check (C05_spec_ok_on_model_no_clear : forall c : case,
+  (forall p, In p (progs_of c) -> ~ In CClear p) ->
+  spec_ok c (run_case c) = true).
+Print Assumptions C05_spec_ok_on_model_no_clear.
 Check (C05_popcount_len_refuted : let cf := fst (exec (step BS true true) site (init_config [[CPush 1%N]; [CPush 2%N]; [CData]]) popcount_sched) in
   let k := getb (heap (fst cf)) 0 in
   option_map pcl (nth_error (snd cf) 2) = Some (WD false 0 []) /\
